@@ -109,7 +109,10 @@ def shard(i, n, args):
                     except Exception:
                         pass
                     res["history"]["after_a_failing_call"] += 1
+                frozen = json.dumps(j, sort_keys=True) if variant in (0, 2) else None
                 out = py.roundtrip(j, root.cls)
+                if frozen is not None and json.dumps(j, sort_keys=True) != frozen:
+                    fail("structuring mutates its input", {"root": root.label, "case": lab, "before": json.loads(frozen), "after": j})
                 if variant == 5 and out[0] == "ok":
                     again = py.roundtrip(j, root.cls)
                     res["history"]["repeated_call"] += 1
